@@ -1,8 +1,34 @@
 import Driver.Proto
 import Gotree.Spec.C11
+import Gotree.Gen.C11Goroutines
 
 namespace Gotree.Driver.C11
 open Gotree Gotree.Driver Gotree.C11
+
+/-! The pool shapes the driver runs are the ones EXTRACTED from the source on this run (Gen/C11Goroutines.lean):
+    a change of the table changes what the model can do — with an unsynchronised shared write a worker
+    may compute its result from another worker's item, with an exit that skips `wg.Done` or a reader
+    that skips `close` the run may end without closing the result channel — and the comparison with the
+    implementation's records below says so.  The library pools are fed by the harness (a producer that
+    closes), the commands by `ReadMultiTrees`. -/
+open Gotree.Gen.C11 in
+def extractedShape (kind : String) : Shape :=
+  match kind with
+  | "compare" => Compare_worker0.facts.shape
+  | "weighted" => CompareWeighted_worker0.facts.shape
+  | "fbp" => FBP_worker0.facts.shape
+  | "tbe" | "clitbe" => (TBE_worker0.factsWithProducer TBE_go0).shape
+  | "clicompare" => (Compare_worker0.factsWithProducer ReadMultiTrees_go0).shape
+  | "cliweighted" => (CompareWeighted_worker0.factsWithProducer ReadMultiTrees_go0).shape
+  | "clifbp" => (FBP_worker0.factsWithProducer ReadMultiTrees_go0).shape
+  | _ => shapeRecord
+
+/-- what the LTS says about the ORDER in which the caller receives the records of a per-item pool with
+    `w` workers (`pool_arrival_window`, `pool_single_worker_sequential`): the record of tree `i` is not
+    received before `i - w + 1` others; with one worker the order is the order of the stream -/
+def orderOK (w : Nat) (order : List Nat) : Bool :=
+  ((List.range order.length).zip order).all (fun (p, i) => i < p + w) &&
+  (w != 1 || order == List.range order.length)
 
 def parseItem (s : String) : Option Item :=
   if s == "!err" then some .err else (T.undump s).map .tree
@@ -101,7 +127,7 @@ def tbeModel (ref : T) (boots : List T) (threads : Nat) (seed : UInt64) : Option
     | [], _, sups => some sups
     | b :: bs, k, sups =>
       let sched := mkSched (seed + k.toUInt64) threads (8 * n + 6)
-      let fin := runToEnd shapeRecord (tbeItemFn ref b) (fun _ => false) threads (threads * 10) (tbeItems ref sups) sched
+      let fin := runToEnd (extractedShape "tbe") (tbeItemFn ref b) (fun _ => false) threads (threads * 10) (tbeItems ref sups) sched
       if !fin.closed || fin.panicked then none
       else match tbeCollect n fin.out with
         | some sups' => go bs (k + 1) sups'
@@ -118,8 +144,9 @@ def showL (f : Std.Format) : String :=
 def handle (op : String) (f : List String) : Verdict :=
   match op, f with
   | "pool", [kind, ths, flags, refS, itemsS, outcome, records, outcome1, records1, race, tookS] =>
-    match ths.toNat?, T.undump refS, parseItems itemsS, tookS.toInt? with
-    | some threads, some ref, some items, some took =>
+    match ths.toNat?, T.undump refS, parseItems itemsS, ((tookS.splitOn ";").headD "").toInt?,
+          parseNatList (((tookS.splitOn ";").drop 1).headD "") with
+    | some threads, some ref, some items, some took, some order =>
       let cancelled := flags.contains 'c'
       let run : Run := ⟨kind, threads, ref, items, outcome, records, outcome1, records1, race, cancelled⟩
       let n := items.length
@@ -139,19 +166,24 @@ def handle (op : String) (f : List String) : Verdict :=
         tagIf (nbad > 0 ∧ badPos + 1 == n) "bad-last" ++
         tagIf (nbad > 0 ∧ 0 < badPos ∧ badPos + 1 < n) "bad-middle" ++
         tagIf ref.rooted "rooted-ref" ++ tagIf tips "tips" ++ tagIf binary "binary" ++
-        tagIf (took ≥ 2) "observed-2-workers" ++ tagIf cancelled "cancelled" ++ tagIf (flags.contains 'r') "rf" ++
+        tagIf (took ≥ 2) "observed-2-workers" ++ tagIf cancelled "cancelled" ++ tagIf (flags.contains 'r') "rf" ++ tagIf (flags.contains 'R') "race-build" ++
+        tagIf (run.perItem && order != List.range n) "records-out-of-stream-order" ++
         tagIf (!ref.noSingle) "single-child-nodes" ++ tagIf (ref.kids.length == 1) "root-is-tip" ++
         tagIf (ref.edges.any (·.len == NIL)) "absent-lengths" ++ tagIf (ref.edges.any (·.len == 0)) "zero-lengths" ++
         tagIf (run.cli && flags.contains 'L') "opt-long" ++ tagIf (run.cli && flags.contains 'E') "opt-eq" ++
         tagIf (run.cli && flags.contains 'P') "opt-before-subcommand" ++ tagIf (run.cli && flags.contains 'O') "opt-omitted" ++
-        tagIf (run.cli && flags.contains 'A') "alias-command" ++ tagIf (run.cli && threads > 16) "threads>cores"
+        tagIf (run.cli && flags.contains 'A') "alias-command" ++
+        tagIf (run.cli && threads > 16 && kind != "clitbe") "threads>cores-clamped-by-the-code" ++
+        tagIf (run.cli && threads > 16 && kind == "clitbe") "threads>cores" ++ tagIf (threads < 1) "threads<1"
       -- the glue of the support commands: the log echoes the thread count the command was given,
       -- whatever the form of the option (-t N, --threads N, --threads=N, before the sub-command, omitted = 1)
       let cliLogOK := !((kind == "clifbp" || kind == "clitbe") && outcome == "ok") || took == (threads : Int)
       if !(runOK run) then
-        ⟨.oracle, tags, runWhy run⟩
+        ⟨.oracle, tags, (if tbeLogFloatOrder run then "class=TbeMovedTaxaFloatOrder " else "") ++ runWhy run⟩
       else if !cliLogOK then ⟨.tie, tags, "the command logged CPUs : " ++ toString took ++ " for " ++ toString threads ++ " threads"⟩
       else if cancelled then ⟨.pass, tags, ""⟩
+      else if run.perItem && !(order.length == n && orderOK threads order) then
+        ⟨.tie, tags, "the records arrived in an order the LTS excludes for " ++ toString threads ++ " workers: " ++ toString order⟩
       else
       -- the model: the pool LTS run under a schedule derived from the case
       let seed : UInt64 := (hash itemsS) + threads.toUInt64
@@ -160,9 +192,11 @@ def handle (op : String) (f : List String) : Verdict :=
       -- (0: rendezvous), the commands read through ReadMultiTrees (buffer of 10)
       let cap : Nat := if run.cli then 10 else 0
       let stops : (Nat × Item) → Bool := fun x => x.2.isBad ref
+      -- the glue around the pools: FBP and TBE start at least one worker (fbp.go:17, tbe.go:151)
+      let threads := if (kind == "fbp" || kind == "tbe" || kind == "clifbp" || kind == "clitbe") && threads < 1 then 1 else threads
       let indexed := (List.range n).zip items
       if kind == "compare" then
-        let fin := runToEnd shapeRecord (fun x : Nat × Item => compareItem ref tips binary x.1 x.2) stops threads cap indexed sched
+        let fin := runToEnd (extractedShape kind) (fun x : Nat × Item => compareItem ref tips binary x.1 x.2) stops threads cap indexed sched
         match parseCmpRecs records with
         | none => bad "C11.pool compare records"
         | some recs =>
@@ -171,7 +205,7 @@ def handle (op : String) (f : List String) : Verdict :=
             ⟨.tie, tags, "model records " ++ showL (repr ((sortRecs fin.out).map CmpRec.obs))⟩
           else ⟨.pass, "model-compare" :: tags, ""⟩
       else if kind == "weighted" then
-        let fin := runToEnd shapeRecord (fun x : Nat × Item => weightedItem ref tips binary x.1 x.2) stops threads cap indexed sched
+        let fin := runToEnd (extractedShape kind) (fun x : Nat × Item => weightedItem ref tips binary x.1 x.2) stops threads cap indexed sched
         match parseWRecs records with
         | none => bad "C11.pool weighted records"
         | some recs =>
@@ -181,7 +215,7 @@ def handle (op : String) (f : List String) : Verdict :=
           else ⟨.pass, "model-weighted" :: tags, ""⟩
       else if kind == "cliweighted" && outcome == "ok" then
         -- the command's glue (comparetrees.go:108-126): wRF = Σ|common| + Σ specific lengths, KF = √(Σ squares)
-        let fin := runToEnd shapeRecord (fun x : Nat × Item => weightedItem ref tips binary x.1 x.2) stops threads cap indexed sched
+        let fin := runToEnd (extractedShape kind) (fun x : Nat × Item => weightedItem ref tips binary x.1 x.2) stops threads cap indexed sched
         match parseCliW binary records with
         | none => bad "C11.pool cliweighted records"
         | some recs =>
@@ -198,7 +232,7 @@ def handle (op : String) (f : List String) : Verdict :=
           else if !agree then ⟨.tie, tags, "model records " ++ showL (repr model)⟩
           else ⟨.pass, "model-cliweighted" :: tags, ""⟩
       else if kind == "clicompare" && outcome == "ok" then
-        let fin := runToEnd shapeRecord (fun x : Nat × Item => compareItem ref tips binary x.1 x.2) stops threads cap indexed sched
+        let fin := runToEnd (extractedShape kind) (fun x : Nat × Item => compareItem ref tips binary x.1 x.2) stops threads cap indexed sched
         match parseCliCmp binary records with
         | none => bad "C11.pool clicompare records"
         | some recs =>
@@ -213,8 +247,11 @@ def handle (op : String) (f : List String) : Verdict :=
       else if kind == "fbp" || kind == "clifbp" then
         -- the stopping pool: the model predicts exactly when the shared error cell is set, and the
         -- collector's tallies give the supports
-        let fin := runToEnd shapeStop (fun x : Nat × Item => fbpFound ref x.2) stops threads cap indexed sched
+        let fin := runToEnd (extractedShape kind) (fun x : Nat × Item => fbpFound ref x.2) stops threads cap indexed sched
         let modelErr := fin.errSet
+        -- when every worker stopped on an erroneous tree the goroutine feeding the channel stays blocked for
+        -- ever (a leaked goroutine, not a hang of the call): made visible as a tag
+        let tags := tags ++ tagIf fin.prod "model-producer-left-blocked"
         if !fin.closed || fin.panicked then ⟨.tie, tags, "model run does not end closed"⟩
         else if modelErr != (outcome != "ok") then ⟨.tie, tags, "model error cell " ++ toString modelErr⟩
         else if outcome == "ok" then
@@ -243,18 +280,19 @@ def handle (op : String) (f : List String) : Verdict :=
             ⟨.pass, "model-tbe" :: tags, ""⟩
           else ⟨.tie, tags, "model supports " ++ showL (repr model)⟩
       else
-        let fin := runToEnd shapeRecord (fun x : Nat × Item => x.1) stops threads cap indexed sched
+        let fin := runToEnd (extractedShape kind) (fun x : Nat × Item => x.1) stops threads cap indexed sched
         if !fin.closed || fin.panicked then ⟨.tie, tags, "model run does not end closed"⟩
         else if run.perItem && (fin.out.mergeSort (fun a b => decide (a ≤ b))) != List.range n then
           ⟨.tie, tags, "model ids"⟩
-        else ⟨.pass, "model-ids" :: tags, ""⟩
-    | _, _, _, _ => bad "C11.pool fields"
+        else ⟨.pass, (if run.perItem then "model-ids" else "model-shape-only") :: tags, ""⟩
+    | _, _, _, _, _ => bad "C11.pool fields"
   | "hm", [_, ths, flags, _, _, outcome, records, outcome1, records1, race, _] =>
     -- goroutines filling one hashmap.HashMap with disjoint keys: the final content is the sequential one
-    match ths.toNat?, (flags.splitOn ",").map String.toNat? with
+    match ths.toNat?, ((flags.replace "R" "").splitOn ",").map String.toNat? with
     | some threads, [some n, some _, some _] =>
       let expect := String.join ((List.range n).map fun j => toString j ++ ":" ++ toString (j * j) ++ ",") ++ ";" ++ toString n
-      let tags := ["hashmap", "threads=" ++ toString threads] ++ tagIf (threads ≥ 2 ∧ n ≥ 2) "nontrivial"
+      let tags := ["hashmap", "threads=" ++ toString threads] ++ tagIf (threads ≥ 2 ∧ n ≥ 2) "nontrivial" ++
+        tagIf (flags.contains 'R') "race-build"
       if !(terminated outcome) then ⟨.oracle, tags, "hash map filling did not terminate normally: " ++ outcome⟩
       else if race != "" then ⟨.oracle, tags, "data race reported: " ++ race⟩
       else if outcome != "ok" || outcome1 != "ok" || records != records1 then
